@@ -108,7 +108,7 @@ def run(ck, facts, tier):
         ps = paths.flatten(got)
         errs = [(c, v) for c, v in ps if isinstance(v, Sym) and v.tag[:2] == ("ctor", "Err")]
         oks = [(c, v) for c, v in ps if isinstance(v, Sym) and v.tag[:2] == ("ctor", "Ok")]
-        rej = vkey(Sym("or", *sorted([vkey(P("is_non_bus_day", S, START)), vkey(P("is_non_bus_day", S, END))], key=repr)))
+        rej = vkey(Sym("or", *sorted([vkey(NOT(P("is_bus_day", S, START))), vkey(NOT(P("is_bus_day", S, END)))], key=repr)))
         ck.check(r1, "bus_date_range", len(errs) == 1 and len(oks) == 1 and errs[0][0] == frozenset([(rej, True)]) and oks[0][0] == frozenset([(rej, False)]),
                  "bus_date_range does not reject non-business end points first", where("bus_date_range"), detail=paths.fmt_paths(got)[:500], sample="[non-bus start or end] -> Err")
         vec, x = LV(0), LV(1)
